@@ -358,10 +358,11 @@ check(const json& c_in)
             stats().count("MAP steps with the lower denominator bound active");
           if (r.clamp_hi)
             stats().count("MAP steps with the upper denominator bound active");
-          // tolerance: float forward/back projection vs double. Observed maxima over seeds: EM 7.4e-6, MAP 1.9e-5 (the prior
-          // gradient is float and enters a difference); asserted 1e-4 / 3e-4 of the image maximum
+          // tolerance: float forward/back projection vs double. Observed maxima over 8 seeds x ~1300 cases: EM 1.3e-5, MAP 9.0e-5
+          // (denominator = prior gradient/N + s with cancellation down to the documented floor s/10 amplifies the float error of
+          // the sensitivity tenfold); asserted 2e-4 / 1e-3 of the image maximum (a wrong factor, index or bound is O(1e-1))
           const Result res
-              = compare_images(k.prior.kind ? "one-step-late MAP update" : "EM update", lam[std::size_t(j)], r.next, &r.skip, k.prior.kind ? 3e-4 : 1e-4,
+              = compare_images(k.prior.kind ? "one-step-late MAP update" : "EM update", lam[std::size_t(j)], r.next, &r.skip, k.prior.kind ? 1e-3 : 2e-4,
                                k.prior.kind ? "max rel err MAP update" : "max rel err EM update",
                                cat("(sub-iteration ", j, ", subset ", (j + k.start_subset - 1) % k.N, " of ", k.N, ")", proj_note));
           if (res.failed())
@@ -450,7 +451,7 @@ check(const json& c_in)
           if (!r.fl.ambiguous)
             {
               const Result res = compare_images("first update of the resumed run (initial zeros lifted as documented)", image_vec(F, *B.iter[std::size_t(kk + 1)]),
-                                                r.next, &r.skip, k.prior.kind ? 3e-4 : 1e-4, "max rel err first update after restart with lifting",
+                                                r.next, &r.skip, k.prior.kind ? 1e-3 : 2e-4, "max rel err first update after restart with lifting",
                                                 cat("(resumed at sub-iteration ", kk + 1, ", N=", k.N, ")"));
               if (res.failed())
                 return res;
